@@ -31,15 +31,17 @@ def contents():
     for i, name in enumerate(("A", "B", "C")):
         CONTENT[name + "0"] = g3[i].svg()
         CONTENT[name + "1"] = g3b[i].svg()
+    CONTENT["X0"] = CONTENT["X1"] = g3[2].svg()
     return CONTENT
 
 
 # a quality floor pngquant cannot reach on gradient artwork: it exits 99 and the wrapper step falls back to the unquantised bitmap
 PQ_STRICT = "--speed 1 --skip-if-larger --quality 100-100"
-FILES = {"A": "emoji_ue000.svg", "B": "emoji_ue001.svg", "C": "emoji_ue003.svg"}
+# X: a source whose file name carries no codepoints -- the glyph-map step refuses it, the final inputs do not build
+FILES = {"A": "emoji_ue000.svg", "B": "emoji_ue001.svg", "C": "emoji_ue003.svg", "X": "sun.svg"}
 DEFAULT_OPTS = {"color_format": "glyf_colr_1"}
 EVENTS = [
-    ["add", "C"], ["remove", "B"], ["modify", "A"], ["touch", "A"], ["rename", "A", "C"], ["rename", "A", "B"],
+    ["add", "C"], ["add", "X"], ["remove", "X"], ["remove", "B"], ["modify", "A"], ["touch", "A"], ["rename", "A", "C"], ["rename", "A", "B"],
     ["opt", "color_format", "picosvg"], ["opt", "color_format", "cbdt"], ["opt", "metrics", "1000,800,-200"], ["opt", "reuse_tolerance", -1],
     ["opt", "clip_to_viewbox", False], ["opt", "clipbox_quantization", 64], ["opt", "bitmap_resolution", 64], ["opt", "use_pngquant", False],
     ["opt", "use_zopflipng", False], ["opt", "pngquant_flags", PQ_STRICT],
@@ -230,7 +232,9 @@ def transition(case):
         out.append(bad("C09.converges", f"history {hist}: Font.ttf differs from the clean build of the same final inputs (sources {sorted(srcs.items())}, options {opts})", sig=_sig(hist)))
     if not any(v["status"] == "violation" for v in out):
         out.append(ok("C09.state", ("fault:" + case["fault"][0] + ":" + case["fault"][1]) if case["fault"] else "event:" + case["event"][0]))
-    out[-1]["child"] = {"dir": str(child), "srcs": srcs, "opts": opts, "history": hist, "key": state_key(child, srcs, opts), "alive": rc == 0 and not want.startswith("FAILED")}
+    out[-1]["child"] = {"dir": str(child), "srcs": srcs, "opts": opts, "history": hist, "key": state_key(child, srcs, opts), "buildable": not want.startswith("FAILED"),
+                         # histories go on from a state that builds, and from one that is *correctly* refused (the way back -- removing the offending source -- must converge too)
+                         "alive": (rc == 0 and not want.startswith("FAILED")) or (rc != 0 and want.startswith("FAILED") and not case["fault"])}
     return out
 
 
@@ -313,7 +317,7 @@ def run(report, tier, only=None):
                 for ev in EVENTS:
                     counter[0] += 1
                     cases.append({"root": str(root), "parent": st["dir"], "id": f"n{counter[0]}", "srcs": st["srcs"], "opts": st["opts"], "event": ev, "fault": None, "history": st["history"]})
-                if level <= fault_depth:
+                if level <= fault_depth and st.get("buildable", True):
                     # faults ride on events after which (nearly) every step has to run again
                     fmt = st["opts"].get("color_format")
                     carriers = [["modify", "A"], ["add", "C"]] if level == 1 else [["modify", "A"]]
